@@ -146,6 +146,18 @@ pub fn login_inputs_taken_as_is(salt: &[u8; 32], b: &[u8; 32], a: &[u8; 32]) -> 
     ok
 }
 
+/// An ordinary scripted private key: counter-mode bytes with the top bit cleared, i.e. a 255-bit value below 2^255 < N.
+/// No range policy a library could reasonably have (non-zero, > 1, < N - 1) refuses such a value, so the harness can
+/// rely on it being used as drawn. (Values outside that range are scripted on purpose elsewhere, behind `taken_as_is`.)
+pub fn ordinary_key(seed: u64, label: &str) -> [u8; 32] {
+    let mut k = ctr_array::<32>(seed, label);
+    k[31] &= 0x7F;
+    if k[8..].iter().all(|b| *b == 0) {
+        k[20] = 0x5A;
+    }
+    k
+}
+
 pub const N_LE: [u8; 32] = LARGE_SAFE_PRIME_LITTLE_ENDIAN;
 
 pub fn le32_from_u64(v: u64) -> [u8; 32] {
